@@ -11,7 +11,9 @@ from .. import probes
 def _labels_of(op, node, is_io):
     if is_io:
         return {type(op).__name__}
-    return set(op.labels) | {type(op).__name__, op.parse_q_reg_types()}
+    # the register-type label in operand order, derived here (not asked from the operation): "Emitter", "Photonic-Emitter", ...
+    reg_label = "-".join({"e": "Emitter", "p": "Photonic"}.get(t, "?") for t in op.q_registers_type)
+    return set(op.labels) | {type(op).__name__, reg_label}
 
 
 def longest_paths(dag):
